@@ -39,6 +39,18 @@ CHECKS = {
             'Trusts TLC; residue order is the order of lowest node key per residue (as partition_graph documents); DSSP '
             'executable path not exercised.',
             'DESIGN.md section 5 / C17'),
+    'C07': ('model_checking',
+            'TLA+ spec DeferredWriter (directory, pending table, one action per file-system primitive of finalisation, Crash '
+            'between any two, Gate; PreExistingSafe invariant over every crashed state, NeverOverwrites/Untouched/Finalised action '
+            'properties; TLC exhaustive + simulation) + replay of state-graph transitions on a real DeferredFileWriter with '
+            'fault injection at the k-th primitive + TLC-judged snapshots around every library writer and real martinize2 runs',
+            'TLC visits every interleaving of opens/appends/discards/finalisations and every crash point for 2 paths with all '
+            'combinations of pre-existing files and backups; each transition is executed on the real writer in a scratch '
+            'directory (halting write() at the corresponding primitive) and the directory compared byte for byte; a 4-path '
+            'instance is simulated; the CLI gate is bound by real subprocess runs judged with the WarnCount operators.',
+            'Trusts TLC, the fault wrappers (installed on the names vermouth.file_writer uses), and log lines on stderr as the '
+            'record of emitted warnings. A crash inside one primitive is below the model step. w+a on one path not generated.',
+            'DESIGN.md section 5 / C07'),
 }
 
 PENDING = {}
